@@ -48,7 +48,7 @@ ASSUMPTIONS.update({
     "vj_is_json": "serde_json::from_str::<serde_json::Value>: does not panic",
     "print_as_json": "print_as_json serialises a Response and prints it: one response on stdout (serde_json::to_string(..).unwrap() of these derive(Serialize) types is assumed not to fail)",
     "sample_request_as_json": "returns some String",
-    "vexpr_into": "Expression -> Rc<Expression> (`.into()`)",
+    "vexpr_into": "Expression -> Rc<Expression> (`.into()`)", "unit": "Value::unit() returns some value",
 })
 LEMMAS = {}
 UNVERIFIED = {"C09": [
@@ -122,6 +122,10 @@ impl Env {
 pub fn vtests_get_cloned(tests: &OpaqueMap<SymbolName, TestInfo>, name: &SymbolName) -> (r: Option<TestInfo>) { unimplemented!() }
 #[verifier::external_body]
 pub fn vS_from_utf8_lossy(buf: &Vec<u8>) -> (r: String) { unimplemented!() }
+impl Value {
+    #[verifier::external_body]
+    pub fn unit() -> (r: Self) { unimplemented!() }
+}
 #[verifier::external_body]
 pub fn vpanic() requires false { unimplemented!() }
 #[verifier::external_body]
@@ -146,7 +150,29 @@ pub fn print_as_json(res: &Response, pretty_print_json: bool, Ghost(n): Ghost<na
 { unimplemented!() }
 """
 
+COMMAND_CORPUS = [
+    ["1 + 1", ":skip", "40 + 2"],
+    ["[nosuch, nosuch2, 3]", ":skip", ":skip", "40 + 2"],
+    ["fun f(): Int { nosuch }", "f()", ":skip", ":skip", ":skip", "40 + 2"],
+    ["let x = nosuch", ":skip", "x", "1 + nosuch", ":skip", ":skip", "40 + 2"],
+    ["println(nosuch)", ":skip", ":resume", ":skip", ":abort", ":skip", "40 + 2"],
+    ["Dict[\"a\" => nosuch, \"b\" => nosuch2]", ":skip", ":skip", ":skip", "40 + 2"],
+    ["(nosuch, 1, nosuch2)", ":skip", ":replace 5", ":skip", "40 + 2"],
+    ["if nosuch { 1 }", ":skip", ":resume", ":abort", "40 + 2"],
+    ["while nosuch { 1 }", ":replace False", "40 + 2"],
+    ["for x in nosuch { x }", ":replace [1]", ":abort", "40 + 2"],
+    ["let y = 1", "y = nosuch", ":forget_local y", "fun nosuch() { 2 }", ":resume", ":abort", "40 + 2"],
+    ["struct P { x: Int }", "P{ x: nosuch }", ":skip", ":abort", "40 + 2"],
+    ["assert(nosuch == 1)", ":skip", ":resume", ":abort", "40 + 2"],
+    ["1 + 1", ":replace 5", ":replace", ":resume", ":abort", ":skip", ":forget_local x", ":forget nosuch", ":test nosuch", ":type", ":type 1 +", "fun f() { throw(\"x\") }", "f()", ":skip", ":skip", ":skip", ":replace 7", ":resume", ":abort", "40 + 2"],
+]
+BOUNDED = [
+    {"name": "command_corpus", "kind": "session-alive", "props": ["C09"], "input": COMMAND_CORPUS, "n_inputs": len(COMMAND_CORPUS),
+     "bound": "%d listed request sequences mixing failing evaluations with :skip / :replace / :resume / :abort / :forget_local: the process must not panic, every request must be answered, and the last request (40 + 2) must be answered with 42" % len(COMMAND_CORPUS),
+     "expect": {}},
+]
 WITNESSES = [
+    {"match": r"session\.", "kind": "session-alive", "props": ["C09"], "input": COMMAND_CORPUS, "expect": {}, "note": "command sequences in any state"},
     {"match": r"session\.handle_run_request\.", "kind": "json-session", "props": ["C09"],
      "input": ["1 + 1", ":skip", "2 + 2"],
      "expect": {"py": "('panicked' in (out + err)) and 'the session died on :skip with nothing pending' or ('\"4\"' not in out and 'no answer to the request after :skip: ' + out[-300:]) or ''"},
